@@ -73,9 +73,24 @@ func solveOne(o *Obligation, dir string, idx int, quickSec, fullSec int) {
 	ctx := context.Background()
 	var outputs []string
 	definite := func(r solveResult) bool { return r.Result == "unsat" || r.Result == "sat" }
-	r := runSolver(ctx, solvers[0], file, quickSec)
+	var r solveResult
+	total := 0.0
+	if o.smtInst != "" {
+		instFile := strings.TrimSuffix(file, ".smt2") + ".inst.smt2"
+		os.WriteFile(instFile, []byte(o.smtInst), 0o644)
+		ri := runSolver(ctx, solvers[0], instFile, quickSec)
+		total += ri.Seconds
+		outputs = append(outputs, fmt.Sprintf("[%s instantiated-hyps %.2fs] %s", ri.Solver, ri.Seconds, ri.Result))
+		os.Remove(instFile)
+		if ri.Result == "unsat" {
+			o.Result, o.Solver, o.Seconds, o.Output = "unsat", ri.Solver+"(instantiated-hyps)", total, strings.Join(outputs, "\n")
+			os.Remove(file)
+			return
+		}
+	}
+	r = runSolver(ctx, solvers[0], file, quickSec)
 	outputs = append(outputs, fmt.Sprintf("[%s %.2fs] %s", r.Solver, r.Seconds, r.Result))
-	total := r.Seconds
+	total += r.Seconds
 	if r.Result == "sat" && o.smtFull != "" {
 		// the pruned query has a model: decide on the full assumption set
 		r.Result = "unknown"
@@ -162,6 +177,9 @@ func solveAll(obls []*Obligation, dir string, workers, quickSec, fullSec int) {
 				o.smtFull = full
 			}
 		}
+		if !o.Cover && (strings.Contains(o.smtText, ":pattern") || strings.Contains(o.smtFull, ":pattern")) {
+			o.smtInst = o.SMTInst()
+		}
 		if !o.Cover && strings.Contains(o.smtText, "(forall ") {
 			nq := o.smtVariant(false, true)
 			if nq != o.smtText {
@@ -177,6 +195,68 @@ func solveAll(obls []*Obligation, dir string, workers, quickSec, fullSec int) {
 			defer wg.Done()
 			for i := range ch {
 				solveOne(obls[i], dir, i, quickSec, fullSec)
+			}
+		}()
+	}
+	for i := range obls {
+		ch <- i
+	}
+	close(ch)
+	wg.Wait()
+}
+
+
+// probePaths decides path feasibility quickly (z3 and cvc5 raced, short timeout). Only an
+// unsat answer is used (to drop the path); anything else keeps the path.
+func probePaths(obls []*Obligation) {
+	if len(obls) == 0 {
+		return
+	}
+	dir, err := os.MkdirTemp("", "vcgo-probe-")
+	if err != nil {
+		return
+	}
+	defer os.RemoveAll(dir)
+	for _, o := range obls {
+		o.smtText = o.SMT(false)
+		if strings.Contains(o.smtText, ":pattern") {
+			// infeasibility is also established by the weaker, quantifier-free instantiated query
+			save := o.Cover
+			o.Cover = false
+			g := o.Goal
+			o.Goal = TFalse()
+			o.smtText = o.SMTInst()
+			o.Goal = g
+			o.Cover = save
+		}
+	}
+	var wg sync.WaitGroup
+	ch := make(chan int)
+	for w := 0; w < 8; w++ {
+		wg.Add(1)
+		go func() {
+			defer wg.Done()
+			for i := range ch {
+				o := obls[i]
+				file := filepath.Join(dir, fmt.Sprintf("p%05d.smt2", i))
+				os.WriteFile(file, []byte(o.smtText), 0o644)
+				ctx, cancel := context.WithCancel(context.Background())
+				rc := make(chan solveResult, 2)
+				for _, s := range []solverSpec{solvers[0], solvers[2]} {
+					s := s
+					go func() { rc <- runSolver(ctx, s, file, 6) }()
+				}
+				o.Result = "unknown"
+				for k := 0; k < 2; k++ {
+					r := <-rc
+					if r.Result == "unsat" || r.Result == "sat" {
+						o.Result = r.Result
+						o.Solver = r.Solver
+						break
+					}
+				}
+				cancel()
+				o.smtText = ""
 			}
 		}()
 	}
